@@ -37,6 +37,7 @@ META = {
     ],
     "assumptions": ["bins strictly increasing and contiguous inside the kernel (established by the wrapper contract)",
                     "a homogeneous cell (theta_1 == theta_2) belongs to the bin [lo, hi) containing it, the last bin being closed (any rule assigning it to exactly one bin conserves; this is the one the repaired kernel implements)"],
+    "bounded_standins": ["native-columns[bounded]: the real kernel and wrapper on 120 / 400 concrete columns (non-monotonic and repeated target_data, values exactly on bin edges, homogeneous and numerically thin cells, bins in both orders) against the statement's overlap formula in numpy; decides also when the generic-iteration rule is not applicable to a restructured kernel. Never counted as proved."],
 }
 
 
@@ -62,7 +63,72 @@ def structures(tier, seed):
            {"sid": "xarray;conservative_interpolation+transform", "part": "xarray"}]
     if tier == "thorough":
         out.append({"sid": "lean;finite-sum-facts", "part": "lean"})
+    # [bounded] the real kernel + wrapper on concrete columns against the statement's formula evaluated with numpy: a stand-in that
+    # still decides when the generic-iteration rule is not applicable to a restructured kernel (its side condition then fails)
+    out.append({"sid": "rnd:native-columns[bounded]", "part": "native-columns", "n": 400 if tier == "thorough" else 120, "seed": int(seed)})
     return out
+
+
+def native_column_oracle(phi, theta, edges):
+    """numbers, from the statement: each cell gives each bin phi x (overlap of the cell's interval with the bin) / (cell interval);
+    a homogeneous cell goes to the one bin [lo, hi) that contains it (the last bin closed); bins listed in increasing order"""
+    import numpy as np
+    m = len(edges) - 1
+    out = np.zeros(m)
+    for i in range(len(phi)):
+        lo, hi = min(theta[i], theta[i + 1]), max(theta[i], theta[i + 1])
+        for j in range(m):
+            b0, b1 = edges[j], edges[j + 1]
+            if lo == hi:
+                if (b0 <= lo < b1) or (j == m - 1 and lo == b1):
+                    out[j] += phi[i]
+            else:
+                ov = min(hi, b1) - max(lo, b0)
+                if ov > 0:
+                    out[j] += phi[i] * ov / (hi - lo)
+    return out
+
+
+def run_native_columns(s):
+    import time
+
+    import numpy as np
+    import xgcm.transform as T
+    t0 = time.time()
+    rng = np.random.default_rng(100 + s["seed"])
+    bad, n = [], 0
+    for trial in range(s["n"]):
+        ncell = int(rng.integers(1, 6))
+        # target_data on the n+1 bounds: monotonic or not, with repeated values and values exactly on bin edges
+        grid_vals = np.arange(0, 9) * 0.5
+        theta = rng.choice(grid_vals, size=ncell + 1) if trial % 3 else np.sort(rng.random(ncell + 1) * 4)
+        if trial % 7 == 0:
+            k = int(rng.integers(0, ncell))
+            theta[k + 1] = theta[k] + 3e-11 * (trial % 2)  # (numerically) thin and exactly homogeneous cells
+        phi = rng.random(ncell) * 4 - 1
+        inner = np.unique(np.concatenate([rng.choice(grid_vals, size=int(rng.integers(0, 4))), rng.random(int(rng.integers(0, 3))) * 4]))
+        inner = inner[(inner > theta.min()) & (inner < theta.max())]
+        edges = np.concatenate([[theta.min() - (0 if trial % 4 else 0.75)], inner, [theta.max() + (0 if trial % 5 else 0.5)]])
+        edges = np.unique(edges)
+        if len(edges) < 2:
+            continue
+        want = native_column_oracle(phi, theta, edges)
+        for direction in (1, -1):
+            got = T.interp_1d_conservative(phi[None, :], theta[None, :], edges[::direction].copy())[0][::direction]
+            n += 1
+            tol = 1e-9 * max(1.0, float(np.abs(phi).sum()))
+            if got.shape != want.shape or not np.allclose(got, want, atol=tol, rtol=0):
+                bad.append(f"phi={phi.tolist()} target_data(bounds)={theta.tolist()} bins={edges[::direction].tolist()} -> {got[::direction].tolist()} ; "
+                           f"the statement's formula gives {want[::direction].tolist()} (column total {float(phi.sum())})")
+                break
+        if bad:
+            break
+    rec = {"fn": "transform.interp_1d_conservative[bounded, real numpy]", "clause": "columns-agree-with-the-overlap-formula-both-bin-orders", "status": "failed" if bad else "proved",
+           "time": time.time() - t0, "detail": bad[0] if bad else f"{n} kernel calls"}
+    if bad:
+        rec["witness"] = {"part": "native-columns", "text": bad[0]}
+    return {"sid": s["sid"], "obligations": [rec], "paths": 0, "queries": 0, "solver_time": 0.0, "engine_errors": [], "covers": {"native-columns": 1},
+            "counts": {"bounded_standin_evaluations": n}}
 
 
 def run_lean(s):
@@ -471,7 +537,7 @@ def run_xarray(s):
 
 
 def run_structure(s):
-    return {"kernel": run_kernel, "lemmas": run_lemmas, "wrapper": run_wrapper, "xarray": run_xarray, "lean": run_lean}[s["part"]](s)
+    return {"kernel": run_kernel, "lemmas": run_lemmas, "wrapper": run_wrapper, "xarray": run_xarray, "lean": run_lean, "native-columns": run_native_columns}[s["part"]](s)
 
 
 REQUIRED_COVERS = ["store", "no-store", "lemmas", "returned", "raised"]
@@ -487,6 +553,8 @@ def replay(ob):
     wit = ob.get("witness") or {}
     import xgcm.transform as T
     part = wit.get("part")
+    if part == "native-columns":
+        return {"confirmed": True, "text": "real kernel on a concrete column:\n" + wit.get("text", "")}
     if part == "kernel":
         m = wit.get("model", {})
         f = m.get("__funcs__", {})
